@@ -71,6 +71,7 @@ void h_run(void) {
   if (adv == 2) sim_scenario("indices-wrap-2^64");
   if (nth >= 2 && total >= 3) sim_nontrivial();
   hist_reset(M_BFIFO, cap);
+  if (wl_pct(40)) sim_tso_enable_plain();
   rb = lockfree_ring_buffer_create(p2);
   rb->high = start;
   rb->low = start;
